@@ -20,16 +20,18 @@
      CSVMProblem and weighted GeneralQuadraticProblem, with / without offset —, EpsilonSvmTrainer
      and OneClassSvmTrainer build the quadratic program handed to QpSolver: linear term, box of every
      variable from label, C-, C+, example weight, log-encoded regularisation parameters, initial
-     alpha incl. the warm-start clipping (commits d631377a, 97947df9) and the rebalancing that
-     restores sum(alpha) = 0 with offset (repair of finding equality:csvm*:bias1:warm2), the 2n
+     alpha incl. the warm-start clipping (commits d631377a, 97947df9) and, when the clipping changed a
+     coefficient, the rebalancing that restores sum(alpha) = 0 with offset (commit 73617c7d, repair of
+     finding equality:csvm*:bias1:warm2), the 2n
      eps-SVR variables over BlockMatrix2x2, the one-class box and start point): each assembled
      problem IS the documented dual — objective and feasible set coincide with the textbook dual,
      stated explicitly (csvm_dual_obj / csvm_dual_feasible in beta_i = y_i alpha_i in [0, C_i w_i];
      svr_dual_obj / svr_dual_feasible in alpha+, alpha-; one-class: -1/2 alpha K alpha on
      {0 <= alpha_i <= 1/(nu n), sum = 1}); the returned eps-SVR coefficient is alpha+ - alpha- and the
      2n-variable gradient uses exactly K coef (representer form); the warm-start point is feasible
-     (box, and sum = 0 EXACTLY with offset) and a feasible old solution is kept; the one-class start
-     point is feasible.
+     (always in the box; with offset sum = 0 EXACTLY whenever a truncation happened or the old point
+     had sum 0) and an old solution inside the new box is handed over unchanged; for such start points
+     (sum 0) the warm problem has the textbook feasible set; the one-class start point is feasible.
    * CERTIFIED RESULT CHECKER (C07Cert.certify, executable over Q, recomputes lin - K alpha itself):
      certify = true -> box, equality within the given slack, the solver's own stopping quantity
      (the proved check_kkt functions) <= eps on the EXACT gradient, bias inside the interval the
@@ -126,43 +128,56 @@ Theorem C07_csvm_assembled_problem_is_textbook_dual :
   forall bias n K lab Cn Cp w prev beta,
   (* objective *)
   qp_obj K (csvmw_problem qops 1 bias n lab Cn Cp w prev) (to_alpha lab beta) == csvm_dual_obj n K lab beta /\
-  (* feasible set, weighted data: 0 <= beta_i <= C_{y_i} w_i [, sum y_i beta_i = 0] *)
-  (qp_feasible (csvmw_problem qops 1 bias n lab Cn Cp w prev) (to_alpha lab beta) <->
-   csvm_dual_feasible n lab (csvm_C lab Cn Cp w) bias beta) /\
+  (* feasible set, weighted data: 0 <= beta_i <= C_{y_i} w_i [, sum y_i beta_i = 0]; the right hand side of the
+     equality constraint is the sum of the start point: 0 for a cold start, for a warm start see C07_warm_start_feasible *)
+  ((bias = true -> sumn n (q_init (csvmw_problem qops 1 bias n lab Cn Cp w prev)) == 0) ->
+   (qp_feasible (csvmw_problem qops 1 bias n lab Cn Cp w prev) (to_alpha lab beta) <->
+    csvm_dual_feasible n lab (csvm_C lab Cn Cp w) bias beta)) /\
   (* un-weighted data (CSVMProblem) *)
-  (qp_feasible (csvm_problem qops 1 bias n lab Cn Cp prev) (to_alpha lab beta) <->
-   csvm_dual_feasible n lab (csvm_C lab Cn Cp (fun _ => 1)) bias beta) /\
+  ((bias = true -> sumn n (q_init (csvm_problem qops 1 bias n lab Cn Cp prev)) == 0) ->
+   (qp_feasible (csvm_problem qops 1 bias n lab Cn Cp prev) (to_alpha lab beta) <->
+    csvm_dual_feasible n lab (csvm_C lab Cn Cp (fun _ => 1)) bias beta)) /\
+  (* cold start: the hypothesis holds *)
+  (bias = true -> sumn n (q_init (csvmw_problem qops 1 bias n lab Cn Cp w None)) == 0) /\
   (* the change of variables is a bijection, and the decision function is the dual's representer form *)
   (forall i, to_beta lab (to_alpha lab beta) i == beta i) /\
   (forall i, sumn n (fun j => K i j * to_alpha lab beta j) == sumn n (fun j => ysgn lab j * beta j * K i j)).
 Proof.
   intros. split; [apply csvm_objective_is_dual|].
   split; [apply csvmw_problem_is_dual|]. split; [apply csvm_problem_is_dual|].
+  split; [apply cold_start_sum_zero|].
   split; [intros; apply to_beta_to_alpha|intros; apply csvm_representer].
 Qed.
 Print Assumptions C07_csvm_assembled_problem_is_textbook_dual.
 
 (* every point of the assembled feasible set comes from a dual-feasible beta (alpha -> y alpha) *)
 Theorem C07_csvm_feasible_sets_coincide : forall bias n lab Cn Cp w prev al,
-  qp_feasible (csvmw_problem qops 1 bias n lab Cn Cp w prev) al <->
-  csvm_dual_feasible n lab (csvm_C lab Cn Cp w) bias (to_beta lab al).
+  let p := csvmw_problem qops 1 bias n lab Cn Cp w prev in
+  (bias = true -> sumn n (q_init p) == 0) ->
+  (qp_feasible p al <-> csvm_dual_feasible n lab (csvm_C lab Cn Cp w) bias (to_beta lab al)).
 Proof. exact csvmw_feasible_sets_coincide. Qed.
 Print Assumptions C07_csvm_feasible_sets_coincide.
 
-(* warm start (clipping to the box of the problem; with offset the rebalancing): the point handed
-   to the solver is feasible — box, and with offset sum(alpha) = 0 EXACTLY *)
+(* warm start as coded since /repo commit 73617c7d (clip to the box of the problem; with offset, IF the clipping
+   changed some coefficient, rescale the heavier side): the start point always lies in the box; with offset it
+   sums to 0 EXACTLY when a truncation happened or the old point had sum 0 (warm_balanced; cold start: always) *)
 Theorem C07_warm_start_feasible : forall bias n lab Cn Cp w prev,
   0 <= Cn -> 0 <= Cp -> (forall i, (i < n)%nat -> 0 <= w i) ->
   let p := csvmw_problem qops 1 bias n lab Cn Cp w prev in
   (forall i, (i < n)%nat -> q_lo p i <= q_init p i /\ q_init p i <= q_hi p i) /\
-  (bias = true -> sumn n (q_init p) == 0).
+  (bias = true ->
+   match prev with
+   | None => True
+   | Some pv => truncated qops pv (fun k => clip_box qops (pv k) (q_lo p k) (q_hi p k)) n = true \/ sumn n pv == 0
+   end -> sumn n (q_init p) == 0).
 Proof. exact warm_start_feasible. Qed.
 Print Assumptions C07_warm_start_feasible.
 
+(* an old point inside the new box is handed over unchanged (so it keeps its own sum; restarting from a
+   solution needs no correction) *)
 Theorem C07_warm_start_keeps_feasible : forall bias n lab Cn Cp w prev,
   let p := csvmw_problem qops 1 bias n lab Cn Cp w (Some prev) in
   (forall i, (i < n)%nat -> q_lo p i <= prev i /\ prev i <= q_hi p i) ->
-  (bias = true -> sumn n prev == 0) ->
   forall i, (i < n)%nat -> q_init p i == prev i.
 Proof. exact warm_start_keeps_feasible. Qed.
 Print Assumptions C07_warm_start_keeps_feasible.
